@@ -197,6 +197,13 @@ LFOR:
 		}
 	}
 	p.expect(token.Semi)
+	keys := make(map[string]bool)
+	for _, m := range enum.Mb {
+		if keys[m.Key] {
+			p.parseErr("enumerator " + m.Key + " Redefine.")
+		}
+		keys[m.Key] = true
+	}
 	p.tarsFile.Module.Enum = append(p.tarsFile.Module.Enum, enum)
 }
 
@@ -315,6 +322,16 @@ func (p *Parse) checkTag(st *ast.Struct) {
 	}
 }
 
+func (p *Parse) checkMemberName(st *ast.Struct) {
+	set := make(map[string]bool)
+	for _, v := range st.Mb {
+		if set[v.Key] {
+			p.parseErr("member " + v.Key + " Redefine.")
+		}
+		set[v.Key] = true
+	}
+}
+
 func (p *Parse) sortTag(st *ast.Struct) {
 	sort.Sort(ast.StructMemberSorter(st.Mb))
 }
@@ -340,6 +357,7 @@ func (p *Parse) parseStruct() {
 	p.expect(token.Semi) //semicolon at the end of the struct.
 
 	p.checkTag(&st)
+	p.checkMemberName(&st)
 	p.sortTag(&st)
 
 	p.tarsFile.Module.Struct = append(p.tarsFile.Module.Struct, st)
@@ -390,6 +408,11 @@ func (p *Parse) parseInterfaceFun() *ast.Func {
 			p.next()
 		}
 
+		for _, v := range fun.Args {
+			if arg.Name != "" && v.Name == arg.Name {
+				p.parseErr("parameter " + arg.Name + " Redefine.")
+			}
+		}
 		fun.Args = append(fun.Args, *arg)
 
 		if p.tk.T == token.Comma {
@@ -420,6 +443,11 @@ func (p *Parse) parseInterface() {
 		if fun == nil {
 			break
 		}
+		for _, v := range itf.Funcs {
+			if v.Name == fun.Name {
+				p.parseErr("function " + fun.Name + " Redefine.")
+			}
+		}
 		itf.Funcs = append(itf.Funcs, *fun)
 	}
 	p.expect(token.Semi) //semicolon at the end of struct.
@@ -444,6 +472,11 @@ func (p *Parse) parseConst() {
 
 	p.expect(token.Name)
 	m.Name = p.tk.S.S
+	for _, v := range p.tarsFile.Module.Const {
+		if v.Name == m.Name {
+			p.parseErr(m.Name + " Redefine.")
+		}
+	}
 
 	p.expect(token.Eq)
 
